@@ -580,5 +580,5 @@ func init() {
 	c19Scenarios["dns"] = c19DNSRun
 	vfRapid("C19/dns",
 		"the schedule has at least two lookups inside the unlocked window of the same DNS cache (parked at the resolver) at the same time",
-		150, 5000, 8, c19DNSGen, c19DNSCheck)
+		300, 5000, 8, c19DNSGen, c19DNSCheck)
 }
